@@ -19,7 +19,9 @@ Search (independent of Coq): for every API operation, at every primitive boundar
 write): process-kill image and power-loss images (lossy subsets of the directory operations since the
 last fsync of their directory, un-fsynced data replaced by truncations / garbage) are materialised,
 a FRESH file_store is opened on them and `can_load(k) -> load(k) in {old, new}`, other keys unchanged,
-residue only under tempfiles/ (and locks/) is required; the same oracle runs as a concurrent reader at
+residue only under tempfiles/ (and locks/) is required, and the residue must be harmless: after lock cleanup
+the fresh store dumps the interrupted key and another key again, reads them back, packs, removes them, without
+an exception and without waiting for a lock (once per distinct set of names left behind); the same oracle runs as a concurrent reader at
 every primitive of the live write (fresh reader now + a reader that opened the files then and reads
 after the write finished, via hard links).  Redis: command trace of redis_store.dump on the
 command-atomic fake server."""
@@ -426,6 +428,58 @@ def check_store(d, ctx):
             if len(top) == 2 and rel.count('/') == 1 and (top + rel[3:]) in uni:
                 continue
             probs.append(('residue outside tempfiles/', rel))
+    return probs
+
+
+class WouldBlock(BaseException):
+    pass
+
+
+def check_writable(d, keys):
+    """Residue never blocks a later write.  On the crash image d the recovery a user performs - lock cleanup
+    (`jug cleanup --locks-only` = store.remove_locks()) and then running again - must work: a fresh file_store
+    can store (again) each of `keys` (the key whose write was interrupted first), a fresh store reads the new
+    values back, `jug pack` (update_pack) runs and the values are still read back, and the keys can be removed.
+    No operation may wait for a lock (time.sleep is trapped).  Returns a list of (class, detail) problems."""
+    import time
+    probs = []
+    real_sleep = time.sleep
+
+    def no_sleep(_t):
+        raise WouldBlock()
+    time.sleep = no_sleep
+    try:
+        try:
+            S = file_store(d)
+        except BaseException:
+            return []                      # an unreadable pack is reported by check_store
+        step = 'lock cleanup'
+        try:
+            S.remove_locks()
+            vals = {}
+            for j, k in enumerate(keys):
+                step = 'dump of %s' % k
+                vals[k] = ('stored again after the crash', j, k[:8])
+                S.dump(vals[k], bx(k))
+            for phase in ('after the dumps', 'after update_pack'):
+                if phase == 'after update_pack':
+                    step = 'update_pack'
+                    S.update_pack()
+                step = 'reading back ' + phase
+                R = file_store(d)
+                for k in keys:
+                    if not R.can_load(bx(k)) or not same(R.load(bx(k)), vals[k]):
+                        probs.append(('after a crash: a later write of the key is not read back', '%s %s' % (k, phase)))
+            for k in keys:
+                step = 'remove of %s' % k
+                if not file_store(d).remove(bx(k)) or file_store(d).can_load(bx(k)):
+                    probs.append(('after a crash: a later remove of the key does not remove it', k))
+        except WouldBlock:
+            probs.append(('after a crash and lock cleanup: a later store operation waits for a lock', step))
+        except BaseException as e:
+            probs.append(('after a crash: residue blocks a later store operation', '%s raised %s: %s' % (step, type(e).__name__, str(e)[:120])))
+    finally:
+        time.sleep = real_sleep
     return probs
 
 
@@ -961,7 +1015,7 @@ def search_scenario(ck, rec, root, cap, max_points, report):
     evs, pos = expand_writes(rec.events, rec.blobs)
     pool = Pool(root, rec.blobs)
     imgdir = os.path.join(root, 'img')
-    stats = {'kill': 0, 'pl': 0, 'pl_exhaustive_points': 0, 'pl_sampled_points': 0, 'dedup': 0}
+    stats = {'kill': 0, 'pl': 0, 'pl_exhaustive_points': 0, 'pl_sampled_points': 0, 'dedup': 0, 'writable': 0}
     for o in rec.ops:
         a, b = pos[o.a], pos[o.b]
         if b == a:
@@ -974,6 +1028,9 @@ def search_scenario(ck, rec, root, cap, max_points, report):
             keep.update(rest[:max(0, max_points - len(keep))])
             points = sorted(keep)
         seen = {}
+        seen_w = set()
+        # the keys stored again on every crash image: the key(s) whose operation was interrupted, and another one
+        wkeys = sorted(o.targets)[:2] + [k for k in rec.universe if k not in o.targets][:1]
 
         def check(img, crash):
             sg = sig_of(img)
@@ -983,6 +1040,12 @@ def search_scenario(ck, rec, root, cap, max_points, report):
             shutil.rmtree(imgdir, ignore_errors=True)
             pool.materialise(img, imgdir)
             probs = check_store(imgdir, o.ctx)
+            # whether later writes work depends on WHICH names the crash left (and on the pack), not on other contents
+            wsig = (tuple(sorted(img)), img.get('packs/jugpack'))
+            if wsig not in seen_w:
+                seen_w.add(wsig)
+                stats['writable'] += 1
+                probs = probs + check_writable(imgdir, wkeys)
             seen[sg] = bool(probs)
             if probs:
                 report(o, crash, img, probs, short_trace(evs, a, b))
@@ -1029,30 +1092,50 @@ def redis_part(ck, rng, n):
         blobs = fsx.Blobs()
         kid = {}
         current = {}
-        for it in range(n):
+        # after the generated values: incompressible payloads whose ENCODED (zlib + base64) size is far beyond any
+        # size at which a client library or a "be nice to the server" patch would start to split a command
+        # (1.3 MiB, 6.7 MiB and 35 MiB of base64; thorough: more sizes in between and above)
+        bigs = [1 << 20, 5 << 20, 26 << 20] + ([3670016, 12 << 20, 34 << 20, 40 << 20] if ck.tier == 'thorough' else [])
+        specs = [None] * n + [['bytes', 7000 + j, sz] for j, sz in enumerate(sorted(bigs))]
+        for it, spec in enumerate(specs):
             k = rng.choice(keys)
-            spec = gen_valspec(rng, False)
+            if spec is None:
+                spec = gen_valspec(rng, False)
+            else:
+                ck.count('redis dumps of a multi-MiB encoded value')
             v = mkvalue(spec)
             before = dict(srv.data)
             n0 = len(srv.trace)
             seen = []
 
-            def hook(cid, cmd, args, k=k, v=v, seen=seen):
-                # a concurrent reader between any two commands of the writer
-                srv.hook = None
+            def look(where, k=k, v=v, seen=seen):
+                # what a concurrent reader sees at this instant = what every later process sees if the writer dies here
+                r = redis_mod.redis_store(REDIS_URL)
                 try:
-                    r = redis_mod.redis_store(REDIS_URL)
                     if r.can_load(bx(k)):
                         got = r.load(bx(k))
                         if not (same(got, v) or (k in current and same(got, current[k]))):
-                            seen.append(describe(got))
+                            seen.append('%s: loadable, load returned %s' % (where, describe(got)))
+                except Exception as e:
+                    seen.append('%s: loadable, load raised %s' % (where, type(e).__name__))
+
+            def hook(cid, cmd, args, look=look, ncmd=[0]):
+                # between any two commands of the writer (and before the first)
+                srv.hook = None
+                try:
+                    look('before command %d (%s)' % (ncmd[0], cmd))
+                    ncmd[0] += 1
                 finally:
                     srv.hook = hook
             srv.hook = hook
+            raised = None
             try:
                 store.dump(v, bx(k))
+            except Exception as e:              # the operation under test raised: a finding, not a harness failure
+                raised = '%s: %s' % (type(e).__name__, str(e)[:160])
             finally:
                 srv.hook = None
+            look('after the last command')
             cmds = [t for t in srv.trace[n0:] if t[0] == 1]
             after = dict(srv.data)
             writes, unknown = [], []
@@ -1071,11 +1154,15 @@ def redis_part(ck, rng, n):
                     okd, dv = decode_strict(base64.b64decode(payload, validate=True) if payload else b'')
                 except Exception:
                     okd = False
-            meta = {'key': k, 'val': spec, 'commands': [[nm, [a[:40].decode('latin1') for a in args]] for (_c, nm, args, _r) in cmds]}
-            if unknown or not okd or not same(dv, v) or seen:
-                ck.violation({'kind': 'impl-violation', 'what': 'redis dump: not one SET of the complete encoding',
+            meta = {'key': k, 'val': spec, 'commands': [[nm, [(a if isinstance(a, bytes) else str(a).encode())[:40].decode('latin1') for a in args],
+                                                          sum(len(a) for a in args if isinstance(a, bytes))] for (_c, nm, args, _r) in cmds]}
+            if unknown or not okd or not same(dv, v) or seen or raised:
+                what = ('redis dump raised' if raised else
+                        'redis dump: between two commands the key is loadable with a value that is neither the old nor the new one' if seen
+                        else 'redis dump: not one SET of the complete encoding')
+                ck.violation({'kind': 'impl-violation', 'what': what, 'exception': raised,
                               'unknown_commands': unknown, 'payload_decodes_to_value': bool(okd and same(dv, v)),
-                              'reader_saw': seen, 'redis': meta})
+                              'reader_or_writer_death_saw': seen[:6], 'redis': meta})
             for d in (before, after):
                 for kk in d:
                     kid.setdefault(kk, len(kid) + 1)
@@ -1338,6 +1425,7 @@ def run(ck):
             ck.count('crash images enumerated: process kill', st['kill'])
             ck.count('crash images enumerated: power loss', st['pl'])
             ck.count('crash images identical to one already checked for the same operation (not re-checked)', st['dedup'])
+            ck.count('crash images on which lock cleanup + dump + read back + pack + remove were run (distinct residue)', st['writable'])
             ck.case_total += st['kill'] + st['pl'] - st['dedup'] + rec.reader_points
             ck.count('crash points with exhaustive lossy subsets', st['pl_exhaustive_points'])
             ck.count('crash points with sampled lossy subsets', st['pl_sampled_points'])
@@ -1439,6 +1527,9 @@ def replay(obj):
             for n, t in sorted(img.items()):
                 print('   image: %-60s %s' % (n, t))
             probs = check_store(imgdir, o.ctx)
+            wkeys = sorted(o.targets)[:2] + [k for k in rec.universe if k not in o.targets][:1]
+            probs = probs + check_writable(imgdir, wkeys)
+            print('then: lock cleanup, dump of %s, read back, update_pack, read back, remove' % [k[:8] for k in wkeys])
             print('expected: every loadable key loads one of', {k: [describe(x) for x in ([o.pre[k]] if k in o.pre else []) + ([o.post[k]] if k in o.targets and k in o.post else [])]
                                                                   for k in rec.universe if k in o.pre or k in o.post})
             for cls, det in probs:
@@ -1469,15 +1560,43 @@ def replay_redis(obj):
     try:
         store = redis_mod.redis_store(REDIS_URL)
         v = mkvalue(m['val'])
-        store.dump(v, bx(m['key']))
-        cmds = [(t[1], t[2][0][:30]) for t in srv.trace]
-        print('commands:', cmds)
-        payload = srv.data.get(b'result:' + bx(m['key']))
+        kb = bx(m['key'])
+        saw = []
+
+        def look(where):
+            r = redis_mod.redis_store(REDIS_URL)
+            try:
+                if r.can_load(kb) and not same(r.load(kb), v):
+                    saw.append('%s: loadable, load returned another value' % where)
+            except Exception as e:
+                saw.append('%s: loadable, load raised %s' % (where, type(e).__name__))
+
+        def hook(cid, cmd, args, n=[0]):
+            srv.hook = None
+            try:
+                look('before command %d (%s)' % (n[0], cmd))
+                n[0] += 1
+            finally:
+                srv.hook = hook
+        srv.hook = hook
+        try:
+            store.dump(v, kb)
+        except Exception as e:
+            print('dump raised %s: %s' % (type(e).__name__, str(e)[:160]))
+            return 1
+        finally:
+            srv.hook = None
+        cmds = [(t[1], t[2][0][:30], sum(len(a) for a in t[2][1:] if isinstance(a, bytes))) for t in srv.trace if t[0] == 1]
+        print('commands of the writer (name, key, payload bytes):', cmds)
+        for x in saw:
+            print('READER / WRITER-DEATH VIOLATION', x)
+        payload = srv.data.get(b'result:' + kb)
         ok, dv = decode_strict(base64.b64decode(payload) if payload else b'') if payload is not None else (False, None)
-        good = [c[0] for c in cmds] == ['SET'] and ok and same(dv, v)
-        print('one SET of the complete encoding:', good)
+        good = [c[0] for c in cmds] == ['SET'] and ok and same(dv, v) and not saw
+        print('one SET of the complete encoding, nothing else ever visible:', good)
         return 0 if good else 1
     finally:
+        srv.hook = None
         fakeredis.uninstall()
 
 
